@@ -143,3 +143,52 @@ Lemma emits_run {A} (L : call -> Prop) (m : M A) st r st' : emits L m -> m st = 
 Proof. intros Hm E. destruct (Hm _ _ _ E) as [H _]. exact H. Qed.
 Lemma log_ext_weaken (L L' : call -> Prop) st st' : (forall c, L c -> L' c) -> log_ext L st st' -> log_ext L' st st'.
 Proof. intros H (new & E & F). exists new. split; [exact E|]. eapply Forall_impl; [|exact F]. intros e. apply H. Qed.
+
+(* ---- absence of panics ---- *)
+Definition np {A} (m : M A) : Prop := forall st r st', m st = (r, st') -> forall p, r <> Panic p.
+Lemma np_ret {A} (a : A) : np (ret a).
+Proof. intros st r st' E p. inversion E; subst. discriminate. Qed.
+Lemma np_fail {A} e : np (@fail A e).
+Proof. intros st r st' E p. inversion E; subst. discriminate. Qed.
+Lemma np_fuel {A} : np (@out_of_fuel A).
+Proof. intros st r st' E p. inversion E; subst. discriminate. Qed.
+Lemma np_bind {A B} (m : M A) (f : A -> M B) : np m -> (forall a, np (f a)) -> np (bind m f).
+Proof.
+  intros Hm Hf st r st' E p. unfold bind in E. destruct (m st) as [ra s1] eqn:Em.
+  destruct ra as [a|e|q|].
+  - eapply Hf; exact E.
+  - inversion E; subst. discriminate.
+  - exfalso. eapply Hm; [exact Em | reflexivity].
+  - inversion E; subst. discriminate.
+Qed.
+Lemma np_try {A} (m : M A) : np m -> np (try m).
+Proof.
+  intros Hm st r st' E p. unfold try in E. destruct (m st) as [ra s1] eqn:Em.
+  destruct ra as [a|e|q|]; inversion E; subst; try discriminate.
+  exfalso. eapply Hm; [exact Em | reflexivity].
+Qed.
+Lemma np_call {A} (c : call) (apply : world -> (A + errkind) * world) : np (call_api c apply).
+Proof.
+  intros st r st' E p. unfold call_api in E.
+  destruct (take_fault (rs_n st) c (rs_faults st)) as [fo fs'].
+  destruct fo as [f|].
+  - destruct f; try (inversion E; subst; discriminate).
+    destruct (apply (rs_api st)) as [x w']. inversion E; subst. discriminate.
+  - destruct (apply (rs_api st)) as [[a|e] w']; inversion E; subst; discriminate.
+Qed.
+Lemma np_forM {A} (l : list A) (f : A -> M unit) : (forall x, np (f x)) -> np (forM l f).
+Proof.
+  intros H. induction l as [|x t IH]; cbn [forM]; [apply np_ret|]. apply np_bind; [apply H | intros _; exact IH].
+Qed.
+
+Ltac npsimp :=
+  repeat first
+    [ apply np_ret | apply np_fail | apply np_fuel | apply np_call
+    | apply np_bind; [|intros ?]
+    | apply np_try
+    | apply np_forM; intros ?
+    | match goal with
+      | |- np (match ?x with _ => _ end) => destruct x
+      | |- np (if ?x then _ else _) => destruct x
+      | |- np (let '(_, _) := ?x in _) => destruct x
+      end ].
